@@ -16,9 +16,10 @@ func init() {
 		Explanation: "(1) every access of producer.bufferedRecords / bufferedBytes / blockedBytes holds producer.mu (the blocked-Produce waiter goroutine returns holding the lock and the producer continues after <-wait: the waiter literal must hold the lock at its exit and the main path must neither lock nor unlock between the hand-off and the increment); " +
 			"(2) bounded-counter idiom: the admission test is `bufferedRecords >= maxBufferedRecords` and `maxBufferedBytes > 0 && bufferedBytes+userSize > maxBufferedBytes`, the waiter loop repeats exactly that predicate, the increment is in the same critical section as the last evaluation of the predicate, and TryProduce/manual-flush (`!block || manualFlushing`) reaches ErrMaxBuffered without waiting; " +
 			"(3) cond discipline on producer.c: both waits are the body of a for loop whose condition reads the guarded state; finishRecordPromise computes its wake flag under the lock from blocked and bufferedRecords==0&&flushing and finishPromises broadcasts once per batch when it is set; quit=true is followed by Broadcast on every path; the cancel path of a blocked Produce broadcasts after the waiter's blocked decrement; " +
-			"(3b) the counters return to zero: they are incremented only at admission in produce and decremented only in finishRecordPromise for admitted records, and the uncounted promise path (promiseRecordBeforeBuf) is used only by produce before admission; " +
+			"(3b) the counters return to zero: they are incremented only at admission in produce and decremented only in finishRecordPromise for admitted records, and the uncounted promise path (promiseRecordBeforeBuf) is used only by produce before admission; the never-counted marker batchPromise.beforeBuf is written (keyed or positional literal, assignment; every store site enumerated type-resolved, incl. methods named init) only by promiseRecordBeforeBuf's literal holding exactly its own record parameter, any other store must be the constant false or a copy of another batch's marker (non-constant stores are undecided), and finishRecordPromise's beforeBuffering argument is a read of that field; " +
+			"(3c) promise ring bound: the argument of initMaxLen on the ring promiseRecordBeforeBuf parks on has a configuration-independent lower bound >= 1024 (interval evaluation over constants, integer conversions, max/min, +, single-assignment locals, cfg.maxBufferedRecords taken as >= 0; the reference is max(limit, 8192)) so it is never just the record limit; unrecognised shapes are undecided; blocking push on a bounded ring is used only by promiseRecordBeforeBuf (admitted hand-offs force); " +
 			"(4) Flush: flushing.Add(1) dominates the unlinger sweep and the wait, is undone by a deferred Add(-1), the wait predicate is bufferedRecords+blocked > 0, and lockedMaybeLinger refuses to start a linger while flushing > 0 or blocked > 0.",
-		NotDecided: "freedom from lost wake-ups under every interleaving (schedule property) beyond the enabling-store/wake discipline; timing.",
+		NotDecided: "freedom from lost wake-ups under every interleaving (schedule property) beyond the enabling-store/wake discipline; timing; that the chosen ring floor (1024, a threshold of this check) is large enough for a given workload: a promise worker that falls that many batches behind still parks pre-admission failures by design.",
 		Run:        runC03,
 	})
 }
@@ -44,6 +45,7 @@ func runC03(c *Ctx) {
 	c03predicate(c, m)
 	c03cond(c, m)
 	c03flush(c, m)
+	c03round4(c, m)
 }
 
 // c03handoff: the waiter literal exits holding p.mu and there is no
